@@ -227,11 +227,115 @@ def mul(a, b) -> Term:
     return _mk("mul", (a, b), INT, lo, hi)
 
 
+
+# ----------------------------------------------------------------------------- linear normal form (for div/mod by constants)
+
+_lin_memo: dict = {}
+
+
+def lin(t: Term):
+    """t == const + sum(coeff * atom): returns (dict atom_id -> [atom, coeff], const).  Atoms are non-linear-in-this-sense terms."""
+    r = _lin_memo.get(t.id)
+    if r is not None:
+        return r
+    if t.op == "const":
+        r = ({}, cval(t))
+    elif t.op == "add" or t.op == "sub":
+        da, ca = lin(t.args[0])
+        db, cb = lin(t.args[1])
+        sign = 1 if t.op == "add" else -1
+        d = {k: [v[0], v[1]] for k, v in da.items()}
+        for k, v in db.items():
+            if k in d:
+                d[k][1] += sign * v[1]
+                if d[k][1] == 0:
+                    del d[k]
+            else:
+                d[k] = [v[0], sign * v[1]]
+        r = (d, ca + sign * cb)
+    elif t.op == "neg":
+        da, ca = lin(t.args[0])
+        r = ({k: [v[0], -v[1]] for k, v in da.items()}, -ca)
+    elif t.op == "mul" and t.args[1].op == "const":
+        c = cval(t.args[1])
+        da, ca = lin(t.args[0])
+        r = ({k: [v[0], v[1] * c] for k, v in da.items()}, ca * c)
+    else:
+        r = ({t.id: [t, 1]}, 0)
+    if len(_lin_memo) > 200000:
+        _lin_memo.clear()
+    _lin_memo[t.id] = r
+    return r
+
+
+def _from_lin(d, c) -> Term:
+    acc = None
+    for k in sorted(d):
+        atom, co = d[k]
+        piece = mul(atom, co)
+        acc = piece if acc is None else add(acc, piece)
+    if acc is None:
+        return const(c)
+    return add(acc, c) if c != 0 else acc
+
+
+def _lin_interval(d, c):
+    lo = hi = c
+    for atom, co in d.values():
+        a_lo, a_hi = atom.lo, atom.hi
+        if co > 0:
+            lo = None if (lo is None or a_lo is None) else lo + co * a_lo
+            hi = None if (hi is None or a_hi is None) else hi + co * a_hi
+        else:
+            lo = None if (lo is None or a_hi is None) else lo + co * a_hi
+            hi = None if (hi is None or a_lo is None) else hi + co * a_lo
+    return lo, hi
+
+
+def _split_divisible(a: Term, d: int):
+    """a == d*Q + R with Q, R terms, R as small as the linear structure allows; returns (Q or None, R, changed)."""
+    dd, c = lin(a)
+    if len(dd) <= 0:
+        return None, a, False
+    q_part = {}
+    r_part = {}
+    for k, (atom, co) in dd.items():
+        if co % d == 0:
+            q_part[k] = [atom, co // d]
+        else:
+            r_part[k] = [atom, co]
+    q0, r0 = divmod(c, d)
+    if not q_part and q0 == 0:
+        # nothing to pull out; still try to locate R in a single period
+        lo, hi = _lin_interval(r_part, r0)
+        if lo is not None and hi is not None and lo // d == hi // d and lo // d != 0:
+            k = lo // d
+            return const(k), _from_lin(r_part, r0 - k * d), True
+        return None, a, False
+    lo, hi = _lin_interval(r_part, r0)
+    if lo is not None and hi is not None and lo // d == hi // d:
+        k = lo // d
+        q0 += k
+        r0 -= k * d
+    return _from_lin(q_part, q0), _from_lin(r_part, r0), True
+
 def _floordiv_iv(alo, ahi, d):
     # d constant != 0
     if d > 0:
         return (None if alo is None else alo // d), (None if ahi is None else ahi // d)
     return (None if ahi is None else ahi // d), (None if alo is None else alo // d)
+
+
+def _fdiv_raw(a: Term, d: int) -> Term:
+    if a.op == "const":
+        return const(cval(a) // d)
+    if a.lo is not None and a.hi is not None and a.lo // d == a.hi // d:
+        return const(a.lo // d)
+    lo, hi = _floordiv_iv(a.lo, a.hi, d)
+    mb = None
+    if (d & (d - 1)) == 0 and a.mb is not None:
+        mb = a.mb >> (d.bit_length() - 1)
+    return _mk("fdiv", (a, const(d)), INT, lo, hi, mb)
 
 
 def fdiv(a, b) -> Term:
@@ -255,6 +359,11 @@ def fdiv(a, b) -> Term:
             return fdiv(a.args[0], cval(a.args[1]) * d)
         if a.op == "ite" and _const_leaves(a):
             return ite(a.args[0], fdiv(a.args[1], d), fdiv(a.args[2], d))
+        if d > 0 and a.op in ("add", "sub", "mul", "neg"):
+            q, r, changed = _split_divisible(a, d)
+            if changed:
+                fr = const(0) if (r.lo is not None and r.hi is not None and 0 <= r.lo and r.hi < d) else _fdiv_raw(r, d)
+                return add(q, fr)
         lo, hi = _floordiv_iv(a.lo, a.hi, d)
         mb = None
         if d > 0 and (d & (d - 1)) == 0 and a.mb is not None:
@@ -298,6 +407,10 @@ def mod(a, b) -> Term:
                 # (x mod m1 + c) ... leave
             if a.op == "ite" and _const_leaves(a):
                 return ite(a.args[0], mod(a.args[1], m), mod(a.args[2], m))
+            if a.op in ("add", "sub", "mul", "neg"):
+                q, r, changed = _split_divisible(a, m)
+                if changed and r is not a:
+                    return mod(r, m)
             mb = None
             if pow2:
                 mb = (m - 1) if a.mb is None else (a.mb & (m - 1))
